@@ -23,6 +23,8 @@ def cases(rng, tier):
     # expression macros, calls, $variables, selector/topic, directives, any layout)
     cs += modelgen_cases(rng, "fullgen", 200 if tier == "quick" else 3000, "fulltext", sizes=(1, 2, 3, 4, 6, 9))
     cs += family_cases(rng, [("many-expansions", G.gen_many_expansions)], 1 if tier == "quick" else 8, faults=0.0)
+    # arguments mentioning labels whose position is still provisional when the invocation is read
+    cs += family_cases(rng, [("macro-arg-layout", G.gen_macro_arg_layout)], n // 10, faults=0.0)
     return cs
 
 
